@@ -1,7 +1,7 @@
 (* Correspondence run for C20: case = what was written + what the real loaders did with it. *)
 From Coq Require Import List ZArith NArith Bool String.
 Import ListNotations.
-From SygmaV Require Export Lib.RunLib Lib.Hex Model.C20.
+From SygmaV Require Export Lib.RunLib Lib.Hex Model.C20 Model.C20Num.
 Local Open Scope Z_scope.
 
 Inductive case :=
@@ -23,7 +23,19 @@ Inductive case :=
    through the file or env loader (chains also: handed to the constructor directly): rule and written
    text per setting, and the values found in the loaded configuration *)
 | Strs (ws : list (str_rule * option string)) (impl : option (list string))
-| Level (text : string) (impl : option string).                 (* LogLevel; impl = Level.String() *)
+| Level (text : string) (impl : option string)                  (* LogLevel; impl = Level.String() *)
+(* ONE numeric setting of a chain entry (Model/C20Num.v: every numeric / duration field of RawEVMConfig,
+   RawSubstrateConfig, RawBtcConfig) written as an integer (handed over exactly or as a float64), a
+   fraction, a string or a bool, or left out; through the constructor directly or the file / env loader;
+   impl = the value NewXConfig holds for it (a rational; blockRetryInterval in nanoseconds) *)
+| NumField (k : chain_kind) (f : nfname) (w : wnum) (impl : option nval)
+(* the feeAmount STRING of a BTC resource; impl = Resource.FeeAmount *)
+| Fee (text : string) (impl : option Z)
+(* a relayer port written in another spelling than the canonical decimal (zero padded, 0x / 0o / 0b, '_') *)
+| PortText (text : string) (impl : option Z)
+(* uploaderConfig.maxRetries of the relayer section of a config FILE (viper.Unmarshal: weakly typed):
+   written as a number, a fraction, a string, a bool, or left out; impl = UploaderConfig.MaxRetries *)
+| Retries (w : wnum) (impl : option nval).
 
 (* texts that are not printable ASCII are written by the runner as [hs "<hex of the UTF-8 bytes>"] *)
 Definition hs (h : string) : string := string_of_bytes (unhex h).
@@ -45,6 +57,13 @@ Fixpoint strings_eqb (a b : list string) : bool :=
 Definition opt_Z_eqb (a b : option Z) : bool :=
   match a, b with
   | Some x, Some y => x =? y
+  | None, None => true
+  | _, _ => false
+  end.
+
+Definition opt_nval_eqb (a b : option nval) : bool :=
+  match a, b with
+  | Some x, Some y => nval_eqb x y
   | None, None => true
   | _, _ => false
   end.
@@ -123,6 +142,10 @@ Definition agree (c : case) : bool :=
       | _, _ => false
       end
   | Level t impl => opt_string_eqb (parse_level t) impl
+  | NumField k f w impl => opt_nval_eqb (model_num k f w) impl
+  | Fee t impl => opt_Z_eqb (parse_fee t) impl
+  | PortText t impl => opt_Z_eqb (parse_port0 t) impl
+  | Retries w impl => opt_nval_eqb (model_retries w) impl
   end.
 
 Definition judge (c : case) : bool :=
@@ -135,6 +158,11 @@ Definition judge (c : case) : bool :=
   | Merge l s impl => merge_ok l s impl
   | Strs ws impl => strs_ok ws impl
   | Level t impl => level_ok t impl
+  | NumField k f w impl => num_ok k f w impl
+  | Fee t impl => fee_ok t impl
+  (* the port syntax is Go's base-0 syntax: the text is read as that syntax reads it *)
+  | PortText t impl => port0_ok t impl
+  | Retries w impl => retries_ok w impl
   end.
 
 Definition some_b {A} (o : option A) : N := match o with Some _ => 1%N | None => 0%N end.
@@ -150,6 +178,10 @@ Definition tag (c : case) : N :=
   | Merge l s _ => (10 + some_b (process l s))%N
   | Strs ws _ => (14 + some_b (load_strings ws))%N
   | Level t _ => (16 + some_b (parse_level t))%N
+  | NumField k f w _ => (20 + some_b (model_num k f w))%N
+  | Fee t _ => (22 + some_b (parse_fee t))%N
+  | PortText t _ => (24 + some_b (parse_port0 t))%N
+  | Retries w _ => (26 + some_b (model_retries w))%N
   end.
 
 Definition check_all := check_cases agree judge tag.
